@@ -111,7 +111,9 @@ def _stackfx(ctx, codes, oblkey):
         if got != want:
             problems.append("stack effect is %s, consensus: %s" % (fmt_fx(cc, got), fmt_fx(cc, want)))
         if problems:
-            out.append(ctx.bad(anchor, "%s (%d → %s): %s" % (name, code, hname, "; ".join(problems)), fn, m, key="%s:%s" % (oblkey, name)))
+            # the key names the deviation (observed effect / depth), so that a different wrong effect of the same opcode is a different finding
+            sig = fmt_fx(cc, got).replace(" ", "") + ("" if _depth(e) == depth else "@depth%d" % _depth(e)) + ("+cond" if conds else "") + ("+alt" if ac or ap else "")
+            out.append(ctx.bad(anchor, "%s (%d → %s): %s" % (name, code, hname, "; ".join(problems)), fn, m, key="%s:%s:%s" % (oblkey, name, sig)))
         else:
             out.append(ctx.ok(anchor, "%s: depth %d, %s" % (name, depth, fmt_fx(consumed, pushed)), fn, m, key="%s:%s" % (oblkey, name)))
     return out
